@@ -490,6 +490,9 @@ prop('C20',
               quick=dict(shards=1), thorough=dict(shards=1)),
          dict(name='parallel', engine='E7', pkg='c20', test='TestC20Par', race=True, replay_test='TestReplayPar', env=dict(GORACE='halt_on_error=1'),
               quick=dict(cases=150, shards=2), thorough=dict(cases=4000, shards=8, timeout=3000)),
+         dict(name='mixed-each', engine='E7', pkg='c20m', test='TestC20MixedEach', kind='plain', quick=dict(shards=1), thorough=dict(shards=1)),
+         dict(name='mixed', engine='E7', pkg='c20m', test='TestC20Mixed',
+              quick=dict(cases=20000, shards=1), thorough=dict(cases=1000000, shards=8, timeout=1800)),
          dict(name='rapid', engine='E7', pkg='c20', test='TestC20', env=dict(VERIF_NO_GO_TIMEOUT='1'),
               quick=dict(cases=80000, shards=1), thorough=dict(cases=4000000, shards=16, timeout=1800)),
          dict(name='fuzz', engine='coverage-guided sweep', kind='fuzz', pkg='c20', test='FuzzC20',
